@@ -415,3 +415,223 @@ def o6_5_confirm(v, out):
     if out.get('_rc') != 0: return (False, 'native run failed: %s' % out.get('_stderr', '')[-300:])
     if v['replay'][0] == 'truncated_batch': return (out.get('accepted_prefixes', '0') != '0', 'native: %s of %s proper prefixes of an encoded batch decode' % (out.get('accepted_prefixes'), out.get('prefixes')))
     return (out.get('mismatches', '0') != '0', 'native: %s of %s encoded batches decode to something else (first: %s)' % (out.get('mismatches'), out.get('batches'), out.get('first_mismatch')))
+
+
+# ======================================================================================== writers (`Vec<u8>` as std::io::Write / VarIntWriter)
+def varint_bytes(x, L):
+    """The L bytes of the varint encoding of x (valid when x needs exactly L bytes)."""
+    w = x.size(); out = []
+    for i in range(L):
+        lo, hi = 7 * i, min(7 * i + 6, w - 1)
+        chunk = Extract(hi, lo, x)
+        if chunk.size() < 7: chunk = ZeroExt(7 - chunk.size(), chunk)
+        out.append(simplify(Concat(BitVecVal(1 if i < L - 1 else 0, 1), chunk)))
+    return out
+
+
+def varint_len_cond(x, L):
+    w = x.size(); maxL = (w + 6) // 7
+    lo = BoolVal(True) if L == 1 else UGE(x, BitVecVal(1 << (7 * (L - 1)), w))
+    hi = BoolVal(True) if L >= maxL else ULT(x, BitVecVal(1 << (7 * L), w))
+    return And(lo, hi)
+
+
+def writer_summaries(S, V, mir):
+    P = {}
+    def write_varint(se, env, pc, buf, x):
+        x = se.deref(env, x) if isinstance(x, Ref) else x
+        if not is_bv(x): raise Inconclusive('write_varint of %r' % (x,))
+        c = simplify(x)
+        l = V(se, env, buf)
+        if is_bv_value(c):
+            n = c.as_long(); L = 1
+            while n >> (7 * L): L += 1
+            return [(None, Enum('Ok', (bv(L),)), env.get('$state'), [(buf, l + varint_bytes(c, L))])]
+        maxL = (x.size() + 6) // 7
+        return [(varint_len_cond(x, L), Enum('Ok', (bv(L),)), env.get('$state'), [(buf, l + varint_bytes(x, L))]) for L in range(1, maxL + 1)]
+    P[r'<Vec<u8> as VarIntWriter>::write_varint'] = write_varint; P[r'<W as VarIntWriter>::write_varint'] = write_varint
+    def write_all(se, env, pc, buf, src):
+        return [(None, Enum('Ok', ((),)), env.get('$state'), [(buf, V(se, env, buf) + V(se, env, src))])]
+    P[r'<Vec<u8> as (?:std::io::)?Write>::write_all'] = write_all; P[r'<W as (?:std::io::)?Write>::write_all'] = write_all
+    wl = [f for f in mir.fns.values() if f.path.endswith('::write_length_prefixed_slice') and 'utils::io' in f.path]
+    rl = [f for f in mir.fns.values() if f.path.endswith('::read_length_prefixed_slice') and 'utils::io' in f.path]
+    lv = [f for f in mir.fns.values() if f.path.endswith('::read_raindb_level') and 'utils::io' in f.path]
+    if not (len(wl) == 1 and len(rl) == 1 and len(lv) == 1): raise Inconclusive('utils::io helpers not found uniquely')
+    P[r'<Vec<u8> as WriteHelpers>::write_length_prefixed_slice'] = lambda se, env, pc, b, s: Delegate(wl[0], [b, s])
+    P[r'<(?:&\[u8\]|R) as ReadHelpers>::read_length_prefixed_slice'] = lambda se, env, pc, r: Delegate(rl[0], [r])
+    P[r'<(?:&\[u8\]|R) as ReadHelpers>::read_raindb_level'] = lambda se, env, pc, r: Delegate(lv[0], [r])
+    asb = mir.method('InternalKey', 'as_bytes', trait='RainDbKeyType')
+    P[r'<Vec<u8> as From<&InternalKey>>::from'] = lambda se, env, pc, k: Delegate(asb, [k])
+    fm_enc = [f for f in mir.fns.values() if f.name == 'from' and 'file_metadata' in f.path and f.trait and f.trait.startswith('From') and f.self_ty and 'Vec' in f.self_ty]
+    fm_dec = [f for f in mir.fns.values() if f.path.endswith('::deserialize') and 'file_metadata' in f.path]
+    if len(fm_enc) != 1 or len(fm_dec) != 1: raise Inconclusive('FileMetadata codec not found uniquely (%d, %d)' % (len(fm_enc), len(fm_dec)))
+    P[r'<Vec<u8> as From<&FileMetadata>>::from'] = lambda se, env, pc, f: Delegate(fm_enc[0], [f])
+    P[r'FileMetadata::deserialize'] = lambda se, env, pc, r: Delegate(fm_dec[0], [r])
+    P[r'<Vec<u8> as Deref>::deref'] = lib.ident
+    P[r'<RainDBError as ToString>::to_string'] = lambda se, env, pc, e: lib.one(env, {'str': '<error text>'})
+    P[r'std::io::Error::new'] = lambda se, env, pc, kind, msg: lib.one(env, {'kind': kind, '__ty': 'io::Error'})
+    S['$patterns'] = dict(list(P.items()) + [(k, v) for k, v in S['$patterns'].items() if k not in P])
+    return S, {'fm_enc': fm_enc[0], 'fm_dec': fm_dec[0]}
+
+
+CLASSES = {'1 byte': lambda x: ULT(x, bv(128)), '2 bytes': lambda x: And(UGE(x, bv(128)), ULT(x, bv(1 << 14))), '10 bytes': lambda x: UGE(x, bv(1 << 63))}
+
+
+def o10_11_metadata_bytes(mir, tier):
+    """`From<&FileMetadata> for Vec<u8>` and `FileMetadata::deserialize` (with InternalKey::as_bytes / try_from, write_ / read_length_prefixed_slice inlined)
+    over symbolic bytes: file number and size each in a varint class (1, 2 or 10 bytes - the class is a precondition, the value is free inside
+    it), smallest / largest keys with user keys of 0..2 symbolic bytes, free sequence numbers, both operations.  Reference: the layout is varint
+    number, varint size, length-prefixed smallest key, length-prefixed largest key; decode(encode(f)) = f field by field and consumes exactly
+    the encoding; every strict prefix is rejected."""
+    res = Result('O10.11 FileMetadata codec over symbolic bytes', [], '')
+    t0 = time.time()
+    klens = [(1, 1), (0, 2), (2, 0)] if tier == 'quick' else [(a, b) for a in range(3) for b in range(3)]
+    classes = [(a, b) for a in CLASSES for b in CLASSES]
+    ff = mir.struct_fields('FileMetadata')
+    for (cn, cs), (l1, l2) in itertools.product(classes, klens):
+        S, V, F = byte_summaries(mir); S = reader_summaries(S, V); S, G = writer_summaries(S, V, mir)
+        res.functions = [G['fm_enc'].path, G['fm_dec'].path, F['as_bytes'].path, F['try_from'].path, 'utils::io write_length_prefixed_slice / read_length_prefixed_slice (inlined)']
+        num, size = BitVec('file_number', 64), BitVec('file_size', 64)
+        sm, SM = sym_key(mir, 'smallest', l1); lg, LG = sym_key(mir, 'largest', l2)
+        pre = [CLASSES[cn](num), CLASSES[cs](size), ULE(SM[2], bv(1)), ULE(LG[2], bv(1))]
+        f0 = mir.mk_struct('FileMetadata', allowed_seeks=Enum('None'), file_number=num, file_size=size, smallest_key=Enum('Some', (sm,)), largest_key=Enum('Some', (lg,)))
+        ex = Exec(mir, S, loop_bound=14, opaque_calls_ok=False)
+        case = 'number in %s, size in %s, user key lengths %d / %d' % (cn, cs, l1, l2)
+        def key_bytes_of(K): return list(K[0]) + [Extract(8 * i + 7, 8 * i, K[1]) for i in range(8)] + [Extract(7, 0, K[2])]
+        def encoded(buf, env, pc, ex=ex, num=num, size=size, SM=SM, LG=LG, cn=cn, cs=cs, case=case):
+            raw = V(ex, env, buf)
+            nL = {'1 byte': 1, '2 bytes': 2, '10 bytes': 10}
+            kb1, kb2 = key_bytes_of(SM), key_bytes_of(LG)
+            want = varint_bytes(num, nL[cn]) + varint_bytes(size, nL[cs]) + [b8(len(kb1))] + kb1 + [b8(len(kb2))] + kb2
+            posts = [('the encoding of a file is not: varint number, varint size, length-prefixed smallest key, length-prefixed largest key', lex_eq(raw, want))]
+            for label, post, m in ex.check_posts(posts, pc):
+                res.violations.append({'label': label, 'case': case, 'replay': ['manifest_codec']})
+            e = dict(env); e['$reader'] = list(raw)
+            def decoded(ret, env2, pc2):
+                ok = isinstance(ret, Enum) and ret.tag == 'Ok'
+                posts = [('an encoded file description does not decode', BoolVal(ok))]
+                if ok:
+                    g = ret.fields[0]
+                    gs, gl = g[ff.index('smallest_key')], g[ff.index('largest_key')]
+                    posts.append(('file number / size do not survive encode + decode', And(g[ff.index('file_number')] == num, g[ff.index('file_size')] == size) if is_bv(g[ff.index('file_number')]) and is_bv(g[ff.index('file_size')]) else BoolVal(False)))
+                    posts.append(('the key range of a file does not survive encode + decode (user key bytes, sequence, operation of both bounds)',
+                                  And(same_key(mir, ex, gs.fields[0], SM) if isinstance(gs, Enum) and gs.tag == 'Some' else BoolVal(False), same_key(mir, ex, gl.fields[0], LG) if isinstance(gl, Enum) and gl.tag == 'Some' else BoolVal(False))))
+                    posts.append(('the decoder does not consume exactly the encoding of the file', BoolVal(len(V(ex, env2, Ref('$reader'))) == 0)))
+                res.cases[case] = res.cases.get(case, 0) + 1
+                for label, post, m in ex.check_posts(posts, pc2):
+                    res.violations.append({'label': label, 'case': case, 'model': {str(d): str(m[d]) for d in m.decls()}, 'replay': ['manifest_codec']})
+            ex.run_fn(G['fm_dec'], [Ref('$reader')], e, pc, decoded)
+            for cut in range(len(raw)):
+                e3 = dict(env); e3['$reader'] = list(raw[:cut])
+                def cut_decoded(ret, env3, pc3, cut=cut):
+                    posts = [('a strict prefix of an encoded file description decodes', BoolVal(isinstance(ret, Enum) and ret.tag == 'Err'))]
+                    for label, post, m in ex.check_posts(posts, pc3):
+                        res.violations.append({'label': label, 'case': case, 'cut': cut, 'replay': ['manifest_codec']})
+                ex.run_fn(G['fm_dec'], [Ref('$reader')], e3, pc, cut_decoded)
+        ex.top(G['fm_enc'], [Ref('$f')], {'$state': {}, '$f': f0}, pre, encoded)
+        res.absorb(ex)
+        _panics(res, ex, pre, 'key_codec')
+    res.bounds = 'file number / size classes %s, user key lengths %s, all bytes symbolic; every strict prefix' % (classes, klens)
+    res.wall_s = time.time() - t0
+    if res.violations: res.status = 'violation'
+    return res
+
+
+def o10_11_confirm(v, out):
+    """Native: `manifest_codec` - version edits of several shapes (files with small and huge numbers / sizes) through the real encoder and decoder."""
+    if out.get('_rc') != 0: return (False, 'native run failed: %s' % out.get('_stderr', '')[-300:])
+    return (out.get('mismatches', '0') != '0', 'native: %s of %s encoded edits decode to something else (first: %s)' % (out.get('mismatches'), out.get('edits'), out.get('first_mismatch')))
+
+
+def o10_12_manifest_bytes(mir, tier):
+    """`From<&VersionChangeManifest> for Vec<u8>` and `VersionChangeManifest::try_from` with everything below them executed from MIR over
+    symbolic bytes (tag and level varints, `ManifestFieldTags::try_from`, `read_raindb_level`, the FileMetadata and InternalKey codecs, the
+    length-prefix helpers, `add_file` / `remove_file` / `add_compaction_pointer`): edits with every combination of the four optional numbers
+    (each free inside a 1-byte or 2-byte varint class), 0..1 compaction pointers, 0..2 deleted files, 0..2 added files (user keys of 0..1
+    symbolic bytes), among them a trivial move.  Reference: the decoded edit equals the encoded one field by field (key bytes included);
+    every strict prefix of the encoding either fails to decode or decodes to an edit with fewer fields - never to different values."""
+    enc = [f for f in mir.fns.values() if f.name == 'from' and 'version_manifest' in f.path and f.trait and f.trait.startswith('From') and f.self_ty and 'Vec' in f.self_ty]
+    dec = [f for f in mir.fns.values() if f.name == 'try_from' and 'version_manifest' in f.path and f.self_ty == 'VersionChangeManifest']
+    if len(enc) != 1 or len(dec) != 1: raise Inconclusive('manifest encoder / decoder not found uniquely (%d, %d)' % (len(enc), len(dec)))
+    enc, dec = enc[0], dec[0]
+    res = Result('O10.12 version-edit codec over symbolic bytes', [enc.path, dec.path, 'FileMetadata / InternalKey codecs, utils::io helpers, ManifestFieldTags::try_from, add_file / remove_file / add_compaction_pointer (inlined)'], '')
+    t0 = time.time()
+    mf = mir.struct_fields('VersionChangeManifest'); ff = mir.struct_fields('FileMetadata'); df = mir.struct_fields('DeletedFile')
+    shapes = [((1, 0, 1, 1), 0, [(3, 7)], [(4, 7)]),              # trivial move: file 7 deleted at level 3, added at level 4
+              ((1, 1, 1, 1), 1, [(0, 5), (1, 9)], [(1, 11), (1, 12)]),
+              ((0, 0, 0, 0), 0, [], [(0, 3)]),
+              ((1, 0, 0, 1), 0, [(5, 8)], []),
+              ((0, 1, 1, 0), 1, [], [])]
+    if tier != 'quick':
+        shapes += [(bits, 1, [(2, 4)], [(3, 4), (6, 6)]) for bits in itertools.product((0, 1), repeat=4)]
+    names = ('wal_file_number', 'prev_wal_file_number', 'curr_file_number', 'prev_sequence_number')
+    for si, (opt_bits, nptr, dels, adds) in enumerate(shapes):
+        S, V, F = byte_summaries(mir); S = reader_summaries(S, V); S, G = writer_summaries(S, V, mir)
+        P = S['$patterns']
+        P[r'<VersionChangeManifest as Default>::default'] = lambda se, env, pc: lib.one(env, mir.mk_struct('VersionChangeManifest', wal_file_number=Enum('None'), prev_wal_file_number=Enum('None'), prev_sequence_number=Enum('None'), curr_file_number=Enum('None'),
+                                                                                                 new_files=[], deleted_files={'set': []}, compaction_pointers=[]))
+        P[r'DeletedFile::new'] = lambda se, env, pc, l, n: lib.one(env, mir.mk_struct('DeletedFile', level=l, file_number=n))
+        P[r'<std::slice::Iter<.*> as Iterator>::next'] = lib.it_next
+        P[r'<&Vec<.*> as IntoIterator>::into_iter'] = lib.slice_iter
+        optv = {n: BitVec('edit_' + n, 64) for n in names}
+        cls = ['1 byte', '2 bytes']
+        pre = [CLASSES[cls[(si + j) % 2]](optv[n]) for j, n in enumerate(names)]
+        ptrs = []
+        for i in range(nptr):
+            k, K = sym_key(mir, 'ptr%d' % i, 1); ptrs.append((bv(2 + i), k, K)); pre.append(ULE(K[2], bv(1)))
+        files = []
+        for i, (lvl, num) in enumerate(adds):
+            sm, SM = sym_key(mir, 'added%d_sm' % i, i % 2); lg, LG = sym_key(mir, 'added%d_lg' % i, 1)
+            size = BitVec('added%d_size' % i, 64); pre += [CLASSES[cls[(si + i) % 2]](size), ULE(SM[2], bv(1)), ULE(LG[2], bv(1))]
+            files.append((bv(lvl), mir.mk_struct('FileMetadata', allowed_seeks=Enum('None'), file_number=bv(num), file_size=size, smallest_key=Enum('Some', (sm,)), largest_key=Enum('Some', (lg,))), (num, size, SM, LG)))
+        delv = [mir.mk_struct('DeletedFile', level=bv(l), file_number=bv(n)) for l, n in dels]
+        m0 = mir.mk_struct('VersionChangeManifest', new_files=[(l, f) for l, f, _ in files], deleted_files={'set': list(delv)}, compaction_pointers=[(l, k) for l, k, _ in ptrs],
+                           **{n: (Enum('Some', (optv[n],)) if b else Enum('None')) for n, b in zip(names, opt_bits)})
+        ex = Exec(mir, S, loop_bound=16, opaque_calls_ok=False)
+        case = 'opts=%s ptrs=%d deleted=%s added=%s' % (''.join(map(str, opt_bits)), nptr, dels, adds)
+        def check_edit(ex, ret, env2, pc2, full, case=case, opt_bits=opt_bits, optv=optv, ptrs=ptrs, files=files, dels=dels):
+            """full: every field must be there; else: every field that is there must carry the encoded value (prefix of the field list)."""
+            posts = []
+            d = ret.fields[0]
+            for n, b in zip(names, opt_bits):
+                x = d[mf.index(n)]
+                if isinstance(x, Enum) and x.tag == 'Some': posts.append(('the %s of an edit does not survive encode + decode' % n.replace('_', ' '), (x.fields[0] == optv[n]) if (b and is_bv(x.fields[0])) else BoolVal(False)))
+                elif full: posts.append(('the %s of an edit does not survive encode + decode' % n.replace('_', ' '), BoolVal(not b)))
+            gp = d[mf.index('compaction_pointers')]
+            okp = BoolVal(len(gp) == len(ptrs) if full else len(gp) <= len(ptrs))
+            posts.append(('the compaction pointers of an edit do not survive encode + decode', And(okp, *[And(g[0] == p[0] if is_bv(g[0]) else BoolVal(False), same_key(mir, ex, g[1], p[2])) for g, p in zip(gp, ptrs)])))
+            gd = sorted((simplify(x[df.index('level')]).as_long(), simplify(x[df.index('file_number')]).as_long()) for x in lib2.set_values(ex, env2, d[mf.index('deleted_files')]))
+            posts.append(('the deleted files of an edit do not survive encode + decode (a file deleted at one level and added at another - a trivial move - must keep its deletion)',
+                          BoolVal(gd == sorted(dels) if full else all(x in dels for x in gd))))
+            gn = d[mf.index('new_files')]
+            conds = [BoolVal(len(gn) == len(files) if full else len(gn) <= len(files))]
+            for (gl, gf), (fl, f, (num, size, SM, LG)) in zip(gn, files):
+                gs, gg = gf[ff.index('smallest_key')], gf[ff.index('largest_key')]
+                conds += [gl == fl if is_bv(gl) else BoolVal(False), gf[ff.index('file_number')] == bv(num), gf[ff.index('file_size')] == size,
+                          same_key(mir, ex, gs.fields[0], SM) if isinstance(gs, Enum) and gs.tag == 'Some' else BoolVal(False), same_key(mir, ex, gg.fields[0], LG) if isinstance(gg, Enum) and gg.tag == 'Some' else BoolVal(False)]
+            posts.append(('the added files of an edit (level, number, size, key range bytes) do not survive encode + decode', And(*conds)))
+            return posts
+        def encoded(buf, env, pc, ex=ex, case=case):
+            raw = V(ex, env, buf)
+            def decoded(ret, env2, pc2):
+                ok = isinstance(ret, Enum) and ret.tag == 'Ok'
+                posts = [('an encoded version edit does not decode', BoolVal(ok))]
+                if ok: posts += check_edit(ex, ret, env2, pc2, True)
+                res.cases[case] = res.cases.get(case, 0) + 1
+                for label, post, m in ex.check_posts(posts, pc2):
+                    res.violations.append({'label': label, 'case': case, 'model': {str(d_): str(m[d_]) for d_ in m.decls()}, 'replay': ['manifest_codec']})
+            ex.run_fn(dec, [list(raw)], dict(env), pc, decoded)
+            for cut in range(len(raw)):
+                def cut_decoded(ret, env3, pc3, cut=cut):
+                    if not (isinstance(ret, Enum) and ret.tag == 'Ok'): return
+                    posts = [(l.replace('does not survive encode + decode', 'is altered when the record is cut short (a torn edit must fail or lose whole fields, never change values)'), p) for l, p in check_edit(ex, ret, env3, pc3, False)]
+                    for label, post, m in ex.check_posts(posts, pc3):
+                        res.violations.append({'label': label, 'case': case, 'cut': cut, 'replay': ['manifest_codec']})
+                ex.run_fn(dec, [list(raw[:cut])], dict(env), pc, cut_decoded)
+        ex.top(enc, [Ref('$m')], {'$state': {}, '$m': m0}, pre, encoded)
+        res.absorb(ex)
+        _panics(res, ex, pre, 'key_codec')
+    res.bounds = '%d edit shapes (optional numbers present / absent, each free in a 1- or 2-byte varint class; 0..1 compaction pointers; 0..2 deleted and 0..2 added files; user keys of 0..1 symbolic bytes); every prefix of every encoding' % len(shapes)
+    res.wall_s = time.time() - t0
+    if res.violations: res.status = 'violation'
+    return res
